@@ -105,8 +105,11 @@ def rule_fileset_source(ctx, rep):
         ok = False
         if calls:
             b = bind_args(calls[0], mf, False)
-            ex, inc = b.get("exclude_paths"), b.get("include_paths")
-            ok = ex is not None and inc is not None and want_ex in unparse(ex) and want_in in unparse(inc) and "directory" in unparse(b.get("parent_path", ast.Constant(value="")))
+            mp = mf.positional_params()  # match_files(parent_path, input_paths, exclude_paths, include_paths): by position
+            if len(mp) < 4:
+                raise AnalysisError("match_files(parent_path, input_paths, exclude_paths, include_paths) signature changed")
+            ex, inc = b.get(mp[2]), b.get(mp[3])
+            ok = ex is not None and inc is not None and want_ex in unparse(ex) and want_in in unparse(inc) and "directory" in unparse(b.get(mp[0], ast.Constant(value="")))
             # None is the sentinel for "use the default excludes": find-and-fix must be able to pass it, remediation never
             can_be_none = isinstance(ex, ast.BoolOp) and any(isinstance(v, ast.Constant) and v.value is None for v in ex.values)
             if name == "find_and_fix_paths":
@@ -227,10 +230,15 @@ def rule_line_suffix(ctx, rep):
                     matchers.append((n, n.args[0]))
     if not matchers:
         raise AnalysisError("filter_files: no glob matcher call (fnmatch.*) found")
-    pl = Pipeline(ctx, fn, "patterns")
+    # filter_files(names, patterns, exclude=False): the parameters are taken by position, not by what they are called
+    pp = fn.positional_params()
+    if len(pp) < 3:
+        raise AnalysisError("filter_files(names, patterns, exclude) signature changed")
+    P_PATTERNS, P_EXCLUDE = pp[1], pp[2]
+    pl = Pipeline(ctx, fn, P_PATTERNS)
 
     def atom(e):
-        return "EXCLUDE" if isinstance(e, ast.Name) and e.id == "exclude" else None
+        return "EXCLUDE" if isinstance(e, ast.Name) and e.id == P_EXCLUDE else None
 
     exc_bad, inc_bad, unknown = [], [], []
     n_alt = 0
